@@ -39,6 +39,12 @@ unsigned           verif_stream_cnt(void *oss, unsigned i);
 unsigned           verif_stream_ncnt(void *oss, unsigned i);
 unsigned           verif_stream_nl(void *oss);
 int                verif_stream_before(void *oss, unsigned i, unsigned j);
+#ifdef VERIF_SYMBOLIC
+// the stubbed std::regex_search (model only): its last verdict, whether it was consulted, the subject length it was given
+unsigned           verif_last_regex_verdict(void);
+unsigned           verif_regex_asked(void);
+unsigned           verif_regex_len(void);
+#endif
 unsigned           verif_lock_depth(void);   // model: current depth of the global recursive mutex; native: always 0
 #ifdef VERIF_SYMBOLIC
 unsigned           verif_stream_ntok(void *oss);
